@@ -402,3 +402,45 @@ C19_UNITS = [
     qunit("tlist_pop", "tlist", 0, [qa("p1", ["push", "push"]), qa("p2", ["push"]), qa("p3", ["push"]), qa("c", ["pop", "popif_any", "peek", "pop", "pop", "empty"])]),
 ]
 PROPS["C19"] = dict(assumptions=["sequentially consistent memory; remove() is called by the consumer only (as in the timer thread)"], units=C19_UNITS)
+
+# ---------------------------------------------------------------------------------------------
+# C08: timed waits
+# ---------------------------------------------------------------------------------------------
+MSNS = 1_000_000
+def tmunit(name, actors, victims=(), n=300):
+    return dict(name=name, scenario="timers", params=dict(actors=actors, victims=list(victims), workers=8),
+                quick=dict(explore=dict(n=n), dfs=dict(max=n, pb=2)),
+                thorough=dict(explore=dict(n=10 * n), dfs=dict(max=10 * n, pb=3)))
+def ta(name, prog, co=True):
+    return dict(name=name, co=co, prog=[[op, ns] for op, ns in prog])
+C08_UNITS = [
+    # Park.tla with the time-out re-check (F6): counter-example on the pinned protocol, repaired protocol verified
+    dict(name="park_spec", tlc=[("spec/l1/MCPark.tla", "spec/l1/MCPark_F6.cfg"), ("spec/l1/MCPark.tla", "spec/l1/MCPark_F6fixed.cfg"),
+                                ("spec/l1/MCPark.tla", "spec/l1/MCPark.cfg")],
+         tlc_expect_error="NoLostTimeout is violated"),
+    dict(name="atomic_dur_spec", tlc=[("spec/l1/MCAtomicDur.tla", "spec/l1/MCAtomicDur_F5.cfg"), ("spec/l1/MCAtomicDur.tla", "spec/l1/MCAtomicDur.cfg")],
+         tlc_expect_error="NeverEarly is violated|AlwaysArmed is violated"),
+    dict(name="timer_spec", tlc=[("spec/l1/MCTimer.tla", "spec/l1/MCTimer_friendly.cfg")]),
+    dict(name="timer_spec_adversarial", tier="thorough", tlc=[("spec/l1/MCTimer.tla", "spec/l1/MCTimer_adversarial.cfg")]),
+    # the park protocol at atomic-step granularity with nobody but the timer to end the wait: every duration
+    pkunit("tpark_10ms", parker_co=True, kind="blocker", rounds=["tpark", "tpark"], unparkers=0, unparks_each=0, n=300),
+    pkunit("tpark_500us", parker_co=True, kind="blocker", rounds=["tpark", "tpark"], unparkers=0, unparks_each=0, dur_ns=500_000, n=200),
+    pkunit("tpark_1500us", parker_co=True, kind="blocker", rounds=["tpark"], unparkers=1, unparks_each=1, dur_ns=1_500_000, n=200),
+    pkunit("tpark_zero", parker_co=True, kind="blocker", rounds=["tpark", "park"], unparkers=1, unparks_each=1, dur_ns=0, n=200),
+    pkunit("hpark_sleep", parker_co=True, kind="handle", rounds=["tpark", "sleep", "tpark"], unparkers=0, unparks_each=0, n=300),
+    pkunit("thread_tpark", parker_co=False, kind="blocker", rounds=["tpark"], unparkers=0, unparks_each=0, dur_ns=1_500_000, n=50),
+    # many timers at once, all kinds of timed waits, equal and different intervals, a cancelled sleeper, odd durations
+    tmunit("mix5", [ta("a1", [("sleep", 20 * MSNS), ("tpark", 10 * MSNS), ("sem", 30 * MSNS)]),
+                    ta("a2", [("recv", 10 * MSNS), ("sleep", 10 * MSNS), ("cv", 20 * MSNS)]),
+                    ta("a3", [("flag", 30 * MSNS), ("mrecv", 10 * MSNS)]),
+                    ta("a4", [("hpark", 20 * MSNS), ("sleep", 500_000), ("tpark", 1_500_000), ("sem", 0)]),
+                    ta("a5", [("sleep", 10 * MSNS), ("sleep", 10 * MSNS), ("sleep", 10 * MSNS)])], victims=["a5"]),
+    tmunit("odd_durations", [ta("a1", [("tpark", 1), ("sem", 999_999), ("recv", 1_000_001), ("sleep", 1)]),
+                             ta("a2", [("flag", 2_500_000), ("cv", 0), ("mrecv", 300_000), ("sleep", 0)]),
+                             ta("a3", [("sleep", 2 * MSNS), ("sleep", 2 * MSNS), ("tpark", 2 * MSNS)])]),
+    tmunit("same_interval", [ta("a1", [("sleep", 10 * MSNS), ("sleep", 10 * MSNS)]), ta("a2", [("sleep", 10 * MSNS), ("tpark", 10 * MSNS)]),
+                             ta("a3", [("tpark", 10 * MSNS), ("sleep", 10 * MSNS)]), ta("a4", [("sem", 10 * MSNS), ("recv", 10 * MSNS)]),
+                             ta("t1", [("tpark", 2 * MSNS), ("sem", 1_500_000)], co=False)], victims=["a1", "a3"]),
+] + _pick("C10", ("timed3", "timed4", "flag3"), "sem_") + _pick("C11", ("timed3",), "cv_") \
+  + _pick("C06", ("mpsc_timed", "mpmc_timed", "mpmc_deep_timed"), "chan_") + _pick("C16", ("poll3",), "cq_")
+PROPS["C08"] = dict(assumptions=["the generator switches stacks correctly; SC memory"], units=C08_UNITS)
